@@ -198,7 +198,7 @@ class Seed(Domain):
         return rng.randint(0, 10 ** 9)
 
 
-@harness("C19", inputs={"seed": Seed(), "nframes": Choice(1, 2, 5)}, kind="bounded",
+@harness("C19", inputs={"seed": Seed(), "nframes": Choice(1, 2, 5)}, kind="bounded", bound={"quick": 5000, "thorough": 50000},
          functions=[R + "_process_buffer", R + "_calc_noise", R + "_check_preamble", R + "_check_msg"],
          note="sequences of frames in uniform noise through the real _process_buffer / _calc_noise (bounded simulation): "
               "all start-offset parities, amplitudes at the range ends, gaps >= one frame")
